@@ -14,6 +14,8 @@ function on a fixed argument recipe.
 """
 from __future__ import annotations
 
+from vp import guard as _guard
+
 import importlib
 import importlib.util
 import json
@@ -113,10 +115,10 @@ def _alarm(_s: int, _f: Any) -> None:
 
 def observe(modname: str, salt: int, recipe: list[Any]) -> dict[str, Any]:
     import signal
-    signal.signal(signal.SIGALRM, _alarm)
+    _guard.install(_alarm)
     out: dict[str, Any] = {"import": "ok", "equations": {}, "functions": {}}
     try:
-        signal.alarm(300)
+        _guard.arm(300)
         mod = importlib.import_module(modname)
         signal.alarm(0)
     except _Hang:
@@ -136,7 +138,7 @@ def observe(modname: str, salt: int, recipe: list[Any]) -> dict[str, Any]:
     from vp.parse.lexicon import build_lexicon
     for attr, eq in public_equations(mod):
         try:
-            signal.alarm(30)
+            _guard.arm(30)
             lex = build_lexicon(eq, "code")
 
             def tok(atom: Any, lex: Any = lex) -> str:
@@ -176,7 +178,7 @@ def observe(modname: str, salt: int, recipe: list[Any]) -> dict[str, Any]:
                     continue
                 args = built[0]
                 try:
-                    signal.alarm(40)
+                    _guard.arm(40)
                     res = fn(*args)
                     if isinstance(res, (list, tuple)):
                         out["functions"][fname] = "seq:" + ",".join(_num(c02.si_value(r)) for r in res)
